@@ -486,6 +486,7 @@ def gen(rng, tier):
         docs.append(t)
         cases.append(ops_for(rng, t, allcuts, 12 if len(t) > 40 else 40))
     for t in [b"0", b"-0", b"[]", b"{}", b'""', b" [ ] ", b'{"a/b":1}', b'{"x//y":1}', b'["\\u0041\\/"]', b"[1\n,2]", b"[1\n]", b'{"a":1\n}', b'{"a":1\n,"b":2}',
+              b"2.5e3", b"1E5", b"-1.50e2", b"9007199254740.991e3", b"9007199254740.992e3", b"1.0E+1", b"12.5e+1", b"120e-1", b"0.5e1", b"-0.0e5", b"[2.5e3,1E15,1e16]",
               b"123456789", b"1234567890", b"-12345678", b"-123456789", b'"\\ud83d\\ude00"', b'{"":0}', b'{"a":{"a":{}}}', b"[[[[]]]]"]:
         docs.append(t)
         cases.append(ops_for(rng, t, 300, 300))
@@ -911,15 +912,18 @@ LEVEL_TEXT = ("Proved in Lean 4, for ALL byte strings / chunkings / documents, a
               "met after any prefix that leaves the parser outside comments and outside the states STRING/QPROPERTY/ESCAPE, also in the middle of a number or "
               "name, decodes like the text without it; a line comment //...LF|CR decodes like its LF|CR alone; comments_transparent: any number of them, removed in any order (StripsTo); "
               "unclosed_block_comment_rejected: a text ending inside such a comment, e.g. [1]/***/, is invalid; tied by K on texts of exactly that grammar and, on "
-              "the real library alone, by comparing the decode of 1500 commented texts with the decode of the uncommented ones on every run). myatoiz_from_source / myatoiz_no_overflow (the integer conversion of state INT is the function regenerated from "
+              "the real library alone, by comparing the decode of 1500 commented texts with the decode of the uncommented ones on every run). parse_number_lexeme / scaled_literal_value (fraction and exponent literals: the decimal read is the one the grammar "
+              "denotes; exact double when it is an integer below 2^53 reached with a non-negative net exponent); myatoiz_from_source / myatoiz_no_overflow (the integer conversion of state INT is the function regenerated from "
               "src/String.cpp on every run, and cannot overflow an int on what INT hands to it). The model is tied to the code on every run by the "
               "correspondence check under ASan/UBSan (whole decodes, chunked feeding, prefixes; grammar-generated JSON/XDL, mutations, raw bytes) "
               "and python3 json adjudicates every RFC 8259 document and prefix generated.")
 LEVEL_NOTE = ("All four planned theorem groups are proved in full (no _partial). rfc_accept and prefix_reject carry the hypothesis nesting <= 1000 "
               "(the decoder's own limit; the property asks for 512). "
               "int_literal_value states correct rounding on the grid of multiples of 2^(floor(log2 n)-52) with a 53-bit significand; that this grid is the set of "
-              "binary64 values around n is the definition of the format, not a separate theorem. Fraction/exponent literals are covered by K + python only "
-              "(general correct rounding of Strtod.roundRatio is not formalised). "
+              "binary64 values around n is the definition of the format, not a separate theorem. Fraction/exponent literals: parse_number_lexeme (for every RFC 8259 "
+              "number the atof model reads exactly the sign / mantissa / fraction length / exponent the grammar assigns) and scaled_literal_value (net exponent >= 0 "
+              "and mant*10^k < 2^53, e.g. 2.5e3, 1E5: the double is exactly the decimal value) are proved; correct rounding of all other fractions is K + python only "
+              "(general correct rounding of Strtod.roundRatio for a denominator 10^k is not formalised). "
               "myatoiz itself (src/String.cpp) is now regenerated (G): translate() reads its sign characters, multiplier and '0' into Gen.Xdl.myatoiz and refuses any other "
               "shape; myatoiz_from_source proves the model's hand-written myatoiz equal to it, myatoiz_no_overflow that every intermediate y stays in [0, 2^31) for "
               "[-]digits of at most intSplit characters (no signed overflow). Bytes >= 0x80 (negative chars) are not modelled there: state INT stores '-' and digits only. "
